@@ -41,9 +41,11 @@ pub fn decode_c10(data: &[u8]) -> Option<c10::Case> {
         7 => 101,
         _ => 1,
     };
+    // bit 5: the richer world (arbiter database with a connected arbiter and a pending conflict)
+    let world = (data[0] / 32) % 2;
     let text = String::from_utf8_lossy(&data[1..]).to_string();
     let lines: Vec<String> = text.split('\n').take(4).map(|s| s.to_string()).collect();
-    Some(c10::Case { auth, lines, repeat })
+    Some(c10::Case { auth, lines, repeat, world })
 }
 
 pub fn decode_c12(data: &[u8]) -> c12::Case {
